@@ -208,6 +208,8 @@ impl Sort {
         store
             .lookup(SortLookup::IdleLookup(scene_id))
             .iter()
+            // an expired track that the periodic collection has not moved out yet is not idle
+            .filter(|(_, status)| !matches!(status, Ok(crate::track::TrackStatus::Wasted)))
             .map(|(track_id, _status)| {
                 let shard = store.get_store(*track_id as usize);
                 let track = shard.get(track_id).unwrap();
